@@ -4,6 +4,7 @@ CONSTANTS
     DebugAsserts = TRUE
     FailKinds = {"err", "death", "stop"}
     Arities = {0, 1, 2, 3, 4, 5, 6}
+    BpChoice = "all"
     Emit = "none"
 SPECIFICATION Spec
 INVARIANTS AllPost NoPanic TypeOK
